@@ -25,7 +25,10 @@ class SimFS:
         self.plan = None
 
     def arm(self, when, errno_name):
-        assert when in ("before", "after")
+        # before/after: the write raises (nothing / a prefix stored);
+        # lost/short: the write *reports success* but nothing / a prefix is stored;
+        # read: the next read raises
+        assert when in ("before", "after", "lost", "short", "read")
         self.plan = (when, errno_name)
 
     def disarm(self):
@@ -47,11 +50,13 @@ class SimFS:
                 raise TypeError("data must be str, not %s" % type(data).__name__)
             fs.counts["writes"] += 1
             plan = fs.plan
-            if plan is not None:
+            if plan is not None and plan[0] != "read":
                 fs.plan = None
                 fs.counts["write_faults"] += 1
-                if plan[0] == "after":
+                if plan[0] in ("after", "short"):
                     fs.store[p] = data[: len(data) // 2]
+                if plan[0] in ("lost", "short"):
+                    return len(data)
                 raise OSError(ERRNOS[plan[1]], "simulated " + plan[1], p)
             fs.store[p] = data
             return len(data)
@@ -61,6 +66,10 @@ class SimFS:
             if not p.startswith(ROOT):
                 return real_read(self, *a, **k)
             fs.counts["reads"] += 1
+            if fs.plan is not None and fs.plan[0] == "read":
+                plan, fs.plan = fs.plan, None
+                fs.counts["read_faults"] = fs.counts.get("read_faults", 0) + 1
+                raise OSError(ERRNOS[plan[1]], "simulated " + plan[1], p)
             if p not in fs.store:
                 fs.counts["read_missing"] += 1
                 raise FileNotFoundError(errno.ENOENT, "simulated ENOENT", p)
